@@ -244,3 +244,46 @@ def run_l2(tier, select=None, baseline=None, log=print, max_procs=None):
         shutil.rmtree(wd, ignore_errors=True)
     stats["wall_s"] = time.time() - t_start
     return hs, results, stats
+
+
+def run_generic(kind, hs, build, content_hash, tier, log=print, shard_cap=40, timeout_s=None, tmpl_builder=None):
+    """Run the harnesses `hs` (dicts with name, decl) of a fixed crate kind; one shard crate per `shard_cap` harnesses."""
+    t_start = time.time()
+    kv = kani_version()
+    results, todo = {}, []
+    for h in hs:
+        h["key"] = X.sha(kind, content_hash, h["decl"], kv, " ".join(KANI_FLAGS))
+        c = cache_get(h["key"])
+        if c is not None:
+            c["cached"] = True
+            results[h["name"]] = c
+        else:
+            todo.append(h)
+    stats = dict(total=len(hs), cached=len(hs) - len(todo), ran=len(todo), kani=kv)
+    if todo:
+        wd = workdir()
+        ncpu = os.cpu_count() or 4
+        shards = [todo[i:i + shard_cap] for i in range(0, len(todo), shard_cap)]
+        tmpl = template_target(kind, tmpl_builder or (lambda d: build(d, [])))
+        timeout_s = timeout_s or (420 if tier == "quick" else 3000)
+        procs = max(1, min(len(shards), ncpu))
+        jobs = max(1, ncpu // procs)
+        log("%s: %d harnesses (%d cached), %d to run in %d shards, %d procs x -j %d" % (kind, len(hs), stats["cached"], len(todo), len(shards), procs, jobs))
+
+        def work(k):
+            d = os.path.join(wd, "s%03d" % k)
+            build(d, shards[k])
+            r, dt, out = run_shard(d, tmpl, jobs, timeout_s, os.path.join(wd, "s%03d.log" % k))
+            shutil.rmtree(os.path.join(d, "target"), ignore_errors=True)
+            return k, r, dt, out
+        with ThreadPoolExecutor(procs) as ex:
+            for k, r, dt, out in ex.map(work, range(len(shards))):
+                for h in shards[k]:
+                    rr = r.get(h["name"]) or dict(status="error", failed=[], n_checks=None, n_failed=None, covers=None, time=None, raw_tail=out[-3000:])
+                    rr["cached"] = False
+                    results[h["name"]] = rr
+                    if rr["status"] in ("success", "failed"):
+                        cache_put(h["key"], {k2: v for k2, v in rr.items() if k2 != "cached"})
+        shutil.rmtree(wd, ignore_errors=True)
+    stats["wall_s"] = time.time() - t_start
+    return results, stats
